@@ -282,30 +282,62 @@ def table_bounded(fx, fid, body, L, all_loops):
                     for _b2, t2 in LP.calls_in(body, L.blocks))
         if not tried:
             continue
-        # every Ok result of g (in the region) is produced under the Some edge of a `get` on a collection, at an index derived from the fed parameter
-        oks = [ob for ob in LP.ok_blocks(gb) if region is None or _traf_region(gb, ob) in (region, None)]
-        if not oks:
-            continue
-        guards = []
-        for gb_, gt in gb.calls():
-            if strip_generics(gt["callee"].get("path") or "") in GET_CALLS and len(gt["args"]) == 2:
-                ipl = op_place(gt["args"][1])
-                if ipl is None or not any(derives_from(gb, ipl["l"], p_ + 1) for p_ in fed):
-                    continue
-                # the switch on the Option's discriminant
-                for sb in range(gb.n):
-                    st_ = gb.term(sb)
-                    if st_["k"] != "switch":
-                        continue
-                    dp = op_place(st_["discr"])
-                    sd = gb.single_def(dp["l"]) if dp is not None and not dp["p"] else None
-                    if sd is not None and sd[2] == "assign" and sd[3]["k"] == "discr" and derives_from(gb, sd[3]["place"]["l"], gt["dest"]["l"]):
-                        some_t = [tg for v, tg in st_["targets"] if v == 1]
-                        if some_t:
-                            guards.append((some_t[0], gb.canon_op(gt["args"][0])))
-        if guards and all(any(ob == g0 or gb.dominates(g0, ob) for g0, _ in guards) for ob in oks):
-            return "each iteration calls %s, which succeeds only when %s holds an element at the requested position" % (fn_short(g), sorted({c for _, c in guards})[0][:80])
+        how = _gated_ok(fx, g, fed, region, 0)
+        if how:
+            return "each iteration calls %s, which succeeds only when %s holds an element at the requested position" % (fn_short(g), how[:80])
     return None
+
+
+def _gated_ok(fx, g, fed, region, depth):
+    """every way function g can produce Ok (on the given side of the trafs split) lies under the Some edge of a `get` on a
+    collection at an index derived from one of the parameters `fed` (0-based), or is the result of a local Result function
+    with the same property for the parameters it is handed.  Returns the rendering of one guarding collection, or None."""
+    gf = fx.fns.get(g)
+    gb = body_of(gf) if gf else None
+    if gb is None or depth > 3:
+        return None
+    ok_sites = []          # (block, kind, terminator)
+    for ob in gb.reach:
+        if any(s_["k"] == "assign" and s_["place"]["l"] == 0 and not s_["place"]["p"] and s_["rv"]["k"] == "agg" and s_["rv"].get("variant") == "Ok" for s_ in gb.stmts(ob)):
+            ok_sites.append((ob, "agg", None))
+    for ob, t in gb.calls():
+        if t["dest"]["l"] == 0 and not t["dest"]["p"] and not (t["callee"].get("path") or "").endswith("from_residual"):
+            ok_sites.append((ob, "call", t))
+    ok_sites = [x for x in ok_sites if region is None or _traf_region(gb, x[0]) in (region, None)]
+    if not ok_sites:
+        return None
+    guards = []
+    for gb_, gt in gb.calls():
+        if strip_generics(gt["callee"].get("path") or "") in GET_CALLS and len(gt["args"]) == 2:
+            ipl = op_place(gt["args"][1])
+            if ipl is None or not any(derives_from(gb, ipl["l"], p_ + 1) for p_ in fed):
+                continue
+            # the switch on the Option's discriminant
+            for sb in range(gb.n):
+                st_ = gb.term(sb)
+                if st_["k"] != "switch":
+                    continue
+                dp = op_place(st_["discr"])
+                sd = gb.single_def(dp["l"]) if dp is not None and not dp["p"] else None
+                if sd is not None and sd[2] == "assign" and sd[3]["k"] == "discr" and derives_from(gb, sd[3]["place"]["l"], gt["dest"]["l"]):
+                    some_t = [tg for v, tg in st_["targets"] if v == 1]
+                    if some_t:
+                        guards.append((some_t[0], gb.canon_op(gt["args"][0])))
+    hows = [c for _, c in guards]
+    for ob, kind, t in ok_sites:
+        if any(ob == g0 or gb.dominates(g0, ob) for g0, _ in guards):
+            continue
+        if kind == "call":
+            h = callee_path(t["callee"])
+            hf = fx.fns.get(h)
+            if hf is not None and str(hf.get("output_s") or "").startswith("core::result::Result<"):
+                fed2 = [i for i, a in enumerate(t["args"]) if op_place(a) is not None and any(derives_from(gb, op_place(a)["l"], p_ + 1) for p_ in fed)]
+                sub = _gated_ok(fx, h, fed2, None, depth + 1) if fed2 else None
+                if sub:
+                    hows.append(sub)
+                    continue
+        return None
+    return sorted(set(hows))[0] if hows else None
 
 
 def check_boxwalk(fx, eng, chk, fid, fn, L, all_loops, d, key):
